@@ -12,7 +12,7 @@ func init() {
 		Title: "A panic anywhere in the chain becomes one 500 and leaves the container usable",
 		Decided: "C10.a in the dispatching function a deferred closure that calls recover() directly is registered exactly when recovery is enabled, before route selection and both chains, and calls the recover handler at most once with the recovered value; with recovery off no recover() is reachable; " +
 			"C10.b the recover handler receives the active (possibly compressing) writer and the deferred Close of that writer is registered before the recover defer, so it runs after the handler wrote; C10.c every lock taken on the request path is released on every exit, by a defer wherever user code or an interface call runs inside the critical section; " +
-			"C10.d no compressor is lost on the panic path (the Close defer covers every install; C13.a decides that Close releases exactly once); C10.e the default recover handler writes the 500 status before the body on its writer. C10.f = C07.h (a complete, decodable body: no declared length from framework writers). C10.g the recover closure dereferences no variable of the dispatching function that can still be nil at a crash point (no store before the defer statement and no nil test), and asserts no type without comma-ok.",
+			"C10.d no compressor is lost on the panic path (the Close defer covers every install; C13.a decides that Close releases exactly once); C10.e the default recover handler writes the 500 status before the body on its writer. C10.f = C07.h (a complete, decodable body: no declared length from framework writers). C10.g the recover closure dereferences no variable of the dispatching function that can still be nil at a crash point (no store before the defer statement and no nil test), and asserts no type without comma-ok. C10.h a function that calls recover() contains no panic statement.",
 		NotDecided:  "what a user-supplied recover handler does; that compress/gzip can finish a stream after a partial write; panics raised by net/http itself.",
 		Assumptions: []string{"Go runs deferred calls LIFO on panic and recover() only works when called directly by the deferred function"},
 		Rules: []Rule{
@@ -26,6 +26,8 @@ func init() {
 				Doc: "No compressor is lost when a panic unwinds: the deferred Close of the active writer is registered before each install (same obligation as C07.e)."},
 			{ID: "C10.e", Template: "T-ORDER", Required: true, Run: ruleC10e,
 				Doc: "The default recover handler calls WriteHeader(500) before Write, both on the writer it was given."},
+			{ID: "C10.h", Template: "T-SINK", Required: false, Run: ruleRecoverDoesNotPanic,
+				Doc: "The function that recovers does not panic itself: a re-panic for selected values (http.ErrAbortHandler) leaves dispatch without a 500 and without the RecoverHandler having run. DoNotRecover(true) is the documented way to let panics through."},
 			{ID: "C10.g", Template: "T-DEFER", Required: true, Run: ruleC10g,
 				Doc: "The recover closure runs for a panic at any crash point after its registration, also before the dispatching function assigned its variables (route, web service). A dereference of such a variable in the closure, not under a nil test, is a second panic after recover() consumed the first: the handler is not called and the panic escapes Dispatch."},
 			{ID: "C10.f", Template: "T-SINK", Required: true, Run: ruleNoDeclaredLength,
